@@ -29,6 +29,26 @@ pub fn leaf_edits(v: &Value, r: &mut Rng) -> Vec<(String, Value)> {
                     cs.pop();
                     variants.push(Value::String(cs.into_iter().collect()));
                 }
+                // spellings a "normalising" writer or reader would identify: letter case, surrounding
+                // white space, path decoration
+                let cs: Vec<char> = s.chars().collect();
+                let cased: Vec<usize> = (0..cs.len()).filter(|&i| {
+                    let (u, l) = (cs[i].to_uppercase().collect::<Vec<_>>(), cs[i].to_lowercase().collect::<Vec<_>>());
+                    (u.len() == 1 && u[0] != cs[i]) || (l.len() == 1 && l[0] != cs[i])
+                }).collect();
+                if !cased.is_empty() {
+                    for &i in [cased[0], *r.pick(&cased)].iter() {
+                        let mut c2 = cs.clone();
+                        let u: Vec<char> = c2[i].to_uppercase().collect();
+                        let l: Vec<char> = c2[i].to_lowercase().collect();
+                        c2[i] = if u.len() == 1 && u[0] != c2[i] { u[0] } else { l[0] };
+                        variants.push(Value::String(c2.into_iter().collect()));
+                    }
+                    variants.push(Value::String(s.to_uppercase()));
+                }
+                for v in [format!(" {}", s), format!("{} ", s), format!("{}/", s), format!("./{}", s), format!("{}\u{0}", s), format!("\u{feff}{}", s)] {
+                    variants.push(Value::String(v));
+                }
                 if s.contains('\n') {
                     variants.push(Value::String(s.replace('\n', "\\n")));
                 }
@@ -174,9 +194,14 @@ fn case(sink: &mut Sink, model: &mut Model, r: &mut Rng, pool: &[KeyInfo], meta:
     };
     let sig0 = signed.signatures[0].value().as_bytes().to_vec();
     let edits = leaf_edits(&j, r);
-    let take = if edits.len() > 40 { 40 } else { edits.len() };
-    let start = if edits.len() > take { r.below(edits.len() - take) } else { 0 };
-    for (path, j2) in edits.into_iter().skip(start).take(take) {
+    // a random sample of the catalogue (every kind of edit at every kind of leaf over the run)
+    let mut edits = edits;
+    let take = if edits.len() > 120 { 120 } else { edits.len() };
+    for i in 0..take {
+        let j = i + r.below(edits.len() - i);
+        edits.swap(i, j);
+    }
+    for (path, j2) in edits.into_iter().take(take) {
         let replay = format!("signed {} // edit at {} => {}", proto(&j, &mut None), path, proto(&j2, &mut None));
         let text2 = j2.to_string();
         let m2: MetadataWrapper = match guarded(|| serde_json::from_str::<MetadataWrapper>(&text2)) {
